@@ -79,7 +79,8 @@ type violationOut struct {
 type sampleOut struct {
 	Seed    int64        `json:"seed"`
 	Config  sim.Config   `json:"config"`
-	Intents []sim.Intent `json:"intents"`
+	Intents []sim.Intent `json:"intents_first_40"`
+	TotalIntents int     `json:"total_intents"`
 	Blocks  int64        `json:"blocks"`
 }
 
@@ -153,8 +154,12 @@ func cmdWorker(args []string) int {
 			}
 			wo.AbortNotes[k]++
 		}
-		if len(wo.Samples) < 2 && res.NonTriv && res.Viol == nil && len(res.Intents) < 80 {
-			wo.Samples = append(wo.Samples, sampleOut{Seed: rs, Config: res.Cfg, Intents: res.Intents, Blocks: res.Blocks})
+		if len(wo.Samples) < 1 && res.NonTriv && res.Viol == nil {
+			ins := res.Intents
+			if len(ins) > 40 {
+				ins = ins[:40] // the sample shows the generated part; the settle phase that follows is uniform
+			}
+			wo.Samples = append(wo.Samples, sampleOut{Seed: rs, Config: res.Cfg, Intents: ins, TotalIntents: len(res.Intents), Blocks: res.Blocks})
 		}
 		if res.Viol != nil {
 			sig := res.Viol.Signature()
@@ -393,7 +398,7 @@ func writeEvidence(prop, tier string, seed int64, m *workerOut, wall float64, vi
 			"distinct_nontrivial": len(m.Shapes),
 			"rule": "one evaluation = one simulated run (seeded swarm configuration + adaptively generated intent trace executed against the real hub app and the external-chain models); " +
 				"a run is non-trivial when the property's oracle judged at least one positive case in it (probe 'nontrivial'); distinct = distinct hashes of (set of intent-kind trigrams, log2-bucketed event counters)",
-			"samples":               m.Samples,
+			"samples":               samplesOrEmpty(m.Samples),
 			"runs_per_hour":         float64(m.Runs) / wall * 3600,
 			"seeds_per_hour":        float64(m.Runs) / wall * 3600,
 			"simulated_seconds":     m.Stats.SimSeconds,
@@ -417,6 +422,13 @@ func writeEvidence(prop, tier string, seed int64, m *workerOut, wall float64, vi
 	os.MkdirAll(filepath.Join(verifDir, "evidence"), 0o755)
 	b, _ := json.MarshalIndent(ev, "", " ")
 	os.WriteFile(filepath.Join(verifDir, "evidence", prop+".json"), b, 0o644)
+}
+
+func samplesOrEmpty(s []sampleOut) []sampleOut {
+	if s == nil {
+		return []sampleOut{}
+	}
+	return s
 }
 
 func firstSeeds(s []int64, n int) []int64 {
